@@ -198,7 +198,7 @@ func (o *scriptOps) parseFile(name string) (absFile, bool) {
 	if strings.HasPrefix(name, "lookup/") {
 		rest := strings.TrimPrefix(name, "lookup/")
 		for k := 0; k < o.w.Size["A"]+o.w.Size["B"]+2; k++ {
-			if rest == escapeUpper(o.w.ModPath(k))+"@"+o.w.Version(k) {
+			if rest == escapeUpper(o.w.ModPath(k))+"@"+escapeUpper(o.w.Version(k)) {
 				return absFile{Kind: "lookup", K: k}, true
 			}
 		}
